@@ -86,7 +86,7 @@ func (p *Path) hashDigest(alg string, payload []Value) Str {
 		}
 	}
 	n, _ := p.freshName("H_" + alg)
-	id := smt.Var(n, smt.Int)
+	id := p.regVar(smt.Var(n, smt.Int))
 	app := &hashApp{alg: alg, payload: append([]Value(nil), payload...), id: id}
 	for _, h := range p.hashApps {
 		if h.alg != alg {
@@ -101,6 +101,22 @@ func (p *Path) hashDigest(alg string, payload []Value) Str {
 
 // Eval evaluates an Int/Bool term under a model (missing variables = 0).
 func evalTerm(t *smt.T, m map[string]*big.Int) *big.Int {
+	return evalMemo(t, m, map[*smt.T]*big.Int{})
+}
+
+func evalMemo(t *smt.T, m map[string]*big.Int, memo map[*smt.T]*big.Int) *big.Int {
+	if len(t.Args) > 0 {
+		if v, ok := memo[t]; ok {
+			return v
+		}
+		v := evalRaw(t, m, memo)
+		memo[t] = v
+		return v
+	}
+	return evalRaw(t, m, memo)
+}
+
+func evalRaw(t *smt.T, m map[string]*big.Int, memo map[*smt.T]*big.Int) *big.Int {
 	switch t.Op {
 	case smt.OConst:
 		if t.Sort == smt.Bool {
@@ -118,7 +134,7 @@ func evalTerm(t *smt.T, m map[string]*big.Int) *big.Int {
 	}
 	a := make([]*big.Int, len(t.Args))
 	for i, x := range t.Args {
-		a[i] = evalTerm(x, m)
+		a[i] = evalMemo(x, m, memo)
 	}
 	b := func(v bool) *big.Int {
 		if v {
